@@ -99,6 +99,18 @@ CLAIMED['C10'] = dict(
          'contain no markup characters.',
     ref='DESIGN.md section 3, C10')
 
+CLAIMED['C02'] = dict(
+    technique='receiver-typed who-may-write census against an owner table + CFG pairing / dominance rules',
+    text='Static: allobjects, contents, rootobjects, subclasses, implementedby_directly, name, parent and unprocessed_modules are written '
+         'only by their owner functions; subclasses is built as the exact inverse of the final baseobjects (after _init_mro) and '
+         'implementedby_directly is appended once under a `not in` test (R02.1); a function that unregisters an object without '
+         're-registering it also removes it from its container on every path (R02.2); every re-keying routine recurses over contents and '
+         'keys by fullName(), the superseded duplicate gets a key found free by a loop, in the order unregister-rename-register (R02.3); '
+         'kind by place (R02.4). Decides that only the owners touch the structures and the shape of the owners, not the heap invariants '
+         'after arbitrary histories.',
+    note='Trusts annotation-driven receiver typing (untyped receivers count only for the distinctive field names).',
+    ref='DESIGN.md section 3, C02')
+
 NOT_APPLICABLE = {
     'C04': 'relation between expandName results and the interpreter import system over all projects: value computations, no clause visible in the shape of the code (DESIGN.md section 5)',
     'C06': 'quantifies over processing schedules; name resolution during the AST walk is order sensitive by design, no structural bound (DESIGN.md section 5); the one structural fact (post-processing after the drain loop) is checked under C05',
